@@ -39,6 +39,18 @@ func VerifC09() {
 		}
 	}
 	exts := c06Exts()
+	// default branch strings, or four arbitrary ones (the report is the tree text of plain output WITH THE SAME strings)
+	ld, li, md, mi := dLD, dLI, dMD, dMI
+	custom := verifFlag("customBranches")
+	if custom {
+		ld, li, md, mi = verifStr("ld"), verifStr("li"), verifStr("md"), verifStr("mi")
+	}
+	bopts := func(o ...Option) []Option {
+		if custom {
+			o = append(o, WithBranchFormatLastNode(ld, li), WithBranchFormatIntermedialNode(md, mi))
+		}
+		return o
+	}
 	route := verifChoose("route", 0, 2)
 	if route == 2 {
 		verifAssume(len(roots) == 1)
@@ -55,9 +67,9 @@ func VerifC09() {
 	verifContext("C09.dryrun")
 	switch route {
 	case 0:
-		err = OutputFromMarkdown(w, &verifReader{lines: rows}, WithDryRun(), WithFileExtensions(c09Copy(exts)))
+		err = OutputFromMarkdown(w, &verifReader{lines: rows}, bopts(WithDryRun(), WithFileExtensions(c09Copy(exts)))...)
 	case 1:
-		err = MkdirFromMarkdown(&verifReader{lines: rows}, WithDryRun(), WithFileExtensions(c09Copy(exts)), WithTargetDir(vfsTarget()))
+		err = MkdirFromMarkdown(&verifReader{lines: rows}, bopts(WithDryRun(), WithFileExtensions(c09Copy(exts)), WithTargetDir(vfsTarget()))...)
 	case 2:
 		var real []*Node
 		for i := range nodes {
@@ -67,7 +79,7 @@ func VerifC09() {
 				real = append(real, real[nodes[i].parent].Add(nodes[i].name))
 			}
 		}
-		err = MkdirFromRoot(real[0], WithDryRun(), WithFileExtensions(c09Copy(exts)), WithTargetDir(vfsTarget()))
+		err = MkdirFromRoot(real[0], bopts(WithDryRun(), WithFileExtensions(c09Copy(exts)), WithTargetDir(vfsTarget()))...)
 	}
 	verifAssert(err == nil, "C09.nil")
 	verifAssert(vfsTouched() == 0, "C09.pure")
@@ -89,7 +101,7 @@ func VerifC09() {
 				}
 			}
 		}
-		want += specRender(nodes, r, dLD, dLI, dMD, dMI) + "\n" + c09Itoa(d) + " directories, " + c09Itoa(f) + " files\n"
+		want += specRender(nodes, r, ld, li, md, mi) + "\n" + c09Itoa(d) + " directories, " + c09Itoa(f) + " files\n"
 	}
 	verifObserve("report", report)
 	verifAssert(report == want, "C09.report")
